@@ -464,3 +464,99 @@ def targets(tier='quick'):
             T.append(Target('arr/AugmentedMPS[%s,ranks=%s]' % (n, ranks), 'mps_mpo.AugmentedMPS.__init__', scen_amps(v, ranks), post_amps, R, PROP,
                             replay=rp))
     return T
+
+
+# ---- PtTebd: "objects built from it earlier are unaffected" -- the parameters (public setters dt / order / epsrel) and the system chain
+# (public add_* methods) handed to the constructor may change afterwards; the PtTebd object answers for the values it was built with
+def tebd_snapshot_registry():
+    R = Registry()
+
+    @model
+    def m_prop(ip, args, kw):
+        names = ['system_chain', 'time_step', 'epsrel', 'order']
+        A = {n: (kw[n] if n in kw else (args[i] if i < len(args) else None)) for i, n in enumerate(names)}
+        ch = A['system_chain']
+        ip.ghost['prop_call'] = {'time_step': A['time_step'], 'epsrel': A['epsrel'], 'order': A['order'],
+                                 'site': list(ch.fields['_site_liouvillians']) if isinstance(ch, Obj) else None,
+                                 'nn': list(ch.fields['_nn_liouvillians']) if isinstance(ch, Obj) else None}
+        return Obj('TebdProp', {})
+    R.models['mps_mpo.compute_tebd_propagator'] = m_prop
+
+    @model
+    def m_none(ip, args, kw):
+        return None
+
+    @model
+    def m_backend(ip, args, kw):
+        ip.ghost['backend_epsrel'] = kw.get('epsrel')
+        return Obj('TMps', {})
+    R.models['backends.pt_tebd_backend.PtTebdBackend'] = m_backend
+    for nm in ('_init_results', '_apply_controls', '_append_results'):
+        R.models['pt_tebd.PtTebd.' + nm] = m_none
+
+    @model
+    def m_copy_generic(ip, args, kw):
+        from pyvc.lib import copy_deepcopy
+        return copy_deepcopy(ip, args, kw)
+    return R
+
+
+def scen_tebd_snapshot(ip, repo):
+    dt, eps, order = Real('dt'), Real('epsrel'), Int('order')
+    ip.assume(z3.And(dt > 0, eps > 0))
+    par = mkobj(repo, 'pt_tebd.PtTebdParameters', _dt=dt, _epsrel=eps, _order=order, name=None, description=None)
+    site, nn = [Vc('site_liouvillian_%d' % i) for i in range(3)], [Vc('nn_liouvillian_%d' % i) for i in range(2)]
+    chain = mkobj(repo, 'system.SystemChain', _hs_dims=[2, 2, 2], _site_liouvillians=list(site), _nn_liouvillians=list(nn), name=None, description=None)
+    mps = mkobj(repo, 'mps_mpo.AugmentedMPS', _gammas=Vc('gammas'), _lambdas=Vc('lambdas'), _n=3)
+    t0, s0 = Real('start_time'), Int('start_step')
+    cls = repo.resolve('pt_tebd.PtTebd')
+    if cls is None:
+        raise Unsupported('contract target missing: pt_tebd.PtTebd')
+    try:
+        ctl = mkobj(repo, 'control.ChainControl', _hs_dims=[2, 2, 2])
+        o = ip.call(cls, [mps, chain, [None, None, None], par], {'start_time': t0, 'start_step': s0, 'chain_control': ctl})
+    except PyRaise:
+        raise Infeasible()
+    # afterwards the caller changes what it handed in (through the public interface: setters, add_* methods)
+    par.fields['_dt'], par.fields['_epsrel'], par.fields['_order'] = Real('dt_changed'), Real('epsrel_changed'), Int('order_changed')
+    chain.fields['_site_liouvillians'][0] = Vc('site_liouvillian_changed')
+    chain.fields['_nn_liouvillians'][1] = Vc('nn_liouvillian_changed')
+    return {'args': [o], 'o': o, 'dt': dt, 'eps': eps, 'order': order, 'site': site, 'nn': nn, 't0': t0, 's0': s0,
+            'inputs': {'history': 'PtTebd(...), then parameters.dt / epsrel / order changed and the chain extended, then initialize() / time()'}}
+
+
+def invoke_tebd_snapshot(ip, repo, fref, ctx):
+    o = ctx['o']
+    k = Int('step')
+    t = ip.call(o.cls.find('time'), [o, k], {})
+    ip.call(o.cls.find('initialize'), [o], {})
+    return t, k
+
+
+def post_tebd_snapshot(ip, ctx, out):
+    if not expect_no_other_exception(ip, out):
+        return
+    t, k = out.value
+    ip.prove('fresh/pt-tebd/time-uses-the-dt-it-was-built-with', veq(t, ctx['t0'] + ctx['dt'] * to_real(k - ctx['s0'])), {'time(step)': repr(t)})
+    pc = ip.ghost.get('prop_call')
+    if pc is None:
+        return ip.prove('fresh/pt-tebd/propagator-built', z3.BoolVal(False))
+    ip.prove('fresh/pt-tebd/propagator-uses-the-parameters-it-was-built-with',
+             z3.And(veq(pc['time_step'], ctx['dt'] / 2), veq(pc['epsrel'], ctx['eps']), veq(pc['order'], ctx['order'])),
+             {'time_step': repr(pc['time_step']), 'epsrel': repr(pc['epsrel']), 'order': repr(pc['order'])})
+    same_chain = pc['site'] is not None and len(pc['site']) == 3 and len(pc['nn']) == 2
+    ip.prove('fresh/pt-tebd/propagator-uses-the-chain-it-was-built-with',
+             z3.And([veq(a, b) for a, b in zip(pc['site'] + pc['nn'], ctx['site'] + ctx['nn'])]) if same_chain else z3.BoolVal(False),
+             {'site terms': repr(pc['site']), 'bond terms': repr(pc['nn'])})
+    be = ip.ghost.get('backend_epsrel')
+    ip.prove('fresh/pt-tebd/backend-uses-the-tolerance-it-was-built-with', veq(be, ctx['eps']) if be is not None else z3.BoolVal(False), {'epsrel handed over': repr(be)})
+
+
+_t_arr = targets
+
+
+def targets(tier='quick'):
+    T = _t_arr(tier)
+    T.append(Target('fresh/PtTebd-snapshot', 'pt_tebd.PtTebd.__init__', scen_tebd_snapshot, post_tebd_snapshot, tebd_snapshot_registry(), PROP,
+                    invoke=invoke_tebd_snapshot, replay=lambda ob: {'func': 'pt_tebd_snapshot', 'inputs': {'obligation': ob['name']}}))
+    return T
